@@ -293,6 +293,87 @@ pub fn run(tier: Tier, seed: u64) -> i32 {
         });
     });
 
+    // ---- B2. the same predicates on a composer with a history -------------------
+    // A composer that has already accepted a valid point P0 (as a constant, as a
+    // generator, as a witness) must judge a later candidate exactly as a fresh
+    // one does - in particular candidates that share P0's compressed encoding
+    // (same v and the same parity of u, but off the curve), inconsistent
+    // extended representations of P0 itself, and torsion translates of P0.
+    let m2 = tier.pick(1500u64, 15000u64);
+    par_cases(m2, threads(), |ci| {
+        let mut rng = case_rng(seed, "C13.B2", ci);
+        let p0 = GENERATOR_EXTENDED * JubJubScalar::from(1 + rng.next_u64());
+        let (u0, v0) = rj::affine(&p0);
+        let two = BlsScalar::from(2u64);
+        let (cname, u, v, z, t_ok): (&str, BlsScalar, BlsScalar, BlsScalar, bool) = match ci % 9 {
+            0 => ("same-encoding:u+2", u0 + two, v0, BlsScalar::one(), true),
+            1 => ("same-encoding:u+2k", u0 + two * BlsScalar::from(1 + rng.next_u64() % 1000), v0, BlsScalar::one(), true),
+            2 => ("same-encoding:u-2", u0 - two, v0, rand_scalar(&mut rng), true),
+            3 => ("P0-with-inconsistent-T", u0, v0, BlsScalar::one(), false),
+            4 => {
+                let t = 1 + rng.next_u32() as usize % 7;
+                let (a, b) = rj::affine(&(p0 + torsion[t]));
+                ("P0+torsion", a, b, BlsScalar::one(), true)
+            }
+            5 => ("P0-again", u0, v0, rand_scalar(&mut rng), true),
+            6 => ("-P0", -u0, v0, BlsScalar::one(), true),
+            7 => ("same-u-other-v", u0, v0 + two, BlsScalar::one(), true),
+            _ => ("P0-zero-z", u0, v0, BlsScalar::zero(), true),
+        };
+        let (t1, t2) = if t_ok { (u, v) } else { (u + BlsScalar::one(), v) };
+        let ext = JubJubExtended::from_raw_unchecked(u * z, v * z, z, t1 * z, t2);
+        let want_constant = z != BlsScalar::zero() && t_ok && rj::in_subgroup(&u, &v);
+        let want_generator = want_constant && !(u == BlsScalar::zero() && v == BlsScalar::one());
+        let desc = json!({"part": "host-predicates-with-history", "candidate": cname, "u0": hx(&u0), "v0": hx(&v0), "u": hx(&u), "v": hx(&v)});
+        ev.case(&desc, true);
+        ev.set_insert("history_candidates", cname);
+        for (hname, prime) in [("constant", 0u8), ("generator", 1), ("witness-and-constant", 2)] {
+            for (name, want) in [("append_constant_point", want_constant), ("component_mul_generator", want_generator)] {
+                let r = guard(|| -> Result<Result<(), Error>, Error> {
+                    let mut c = Composer::initialized();
+                    match prime {
+                        0 => {
+                            c.append_constant_point(p0)?;
+                        }
+                        1 => {
+                            let s = c.append_witness(BlsScalar::from(3u64));
+                            c.component_mul_generator(s, p0)?;
+                        }
+                        _ => {
+                            c.append_point(p0)?;
+                            c.append_constant_point(p0)?;
+                            c.append_constant_point(-p0)?;
+                        }
+                    }
+                    Ok(if name == "append_constant_point" {
+                        c.append_constant_point(ext).map(|_| ())
+                    } else {
+                        let s = c.append_witness(BlsScalar::from(5u64));
+                        c.component_mul_generator(s, ext).map(|_| ())
+                    })
+                });
+                ev.bucket("history.predicates");
+                match r {
+                    Err(p) => ev.violation(&format!("C13:{name}:panic-after-history:{}", panic_site(&p)), json!({"case": desc, "history": hname, "panic": p})),
+                    Ok(Err(e)) => ev.violation(&format!("C13:{name}:valid-point-rejected-while-priming"), json!({"case": desc, "history": hname, "error": format!("{e:?}")})),
+                    Ok(Ok(res)) => {
+                        ev.bucket(if res.is_ok() { "history.ok" } else { "history.err" });
+                        if res.is_ok() != want {
+                            ev.violation(
+                                &format!("C13:{name}:predicate-differs-after-history:{}:{}", if res.is_ok() { "accepts" } else { "rejects" }, cname.split(':').next().unwrap()),
+                                json!({"case": desc, "history": hname, "expected_ok": want, "got": format!("{res:?}")}),
+                            );
+                        }
+                    }
+                }
+            }
+        }
+    });
+
+    ev.floor("host predicates evaluated on a composer with a history", ev.bucket_get("history.predicates"), tier.pick(5000, 50000));
+    ev.floor("candidate classes after a history", ev.set_len("history_candidates") as u64, 9);
+    ev.floor("accepted after a history", ev.bucket_get("history.ok"), 500);
+    ev.floor("rejected after a history", ev.bucket_get("history.err"), 2000);
     ev.floor("P/Q class combinations", ev.set_len("pq_classes") as u64, 40);
     ev.floor("gates satisfied", ev.bucket_get("gates.satisfied"), 100);
     ev.floor("gates unsatisfied", ev.bucket_get("gates.unsatisfied"), 800);
